@@ -260,7 +260,7 @@ class ExecMixin:
     def alloc(self, st, et):
         k = self.K(et)
         if k == 'struct':
-            r = st.newref('obj'); self.zero_init(st, r, et); return r
+            r = st.newref('obj'); self.zero_init(st, r, et); self.no_dangling(st, r, et); return r
         if k == 'array':
             _, d = self.p.under(et)
             r = st.newref('arr'); self.zero_mem(st, r, d['elem'])
@@ -271,6 +271,34 @@ class ExecMixin:
         for (c, srt), x in zip(self.leaves(et), self.comps(z)):
             st.wr(loc.key + c, loc.idx, x, srt, log=False)
         return loc
+
+    def no_dangling(self, st, r, et):
+        """nothing (real or ghost pointer) can already point to an object that is only now allocated"""
+        x = Int('nd!x')
+        want = '*' + et
+        self.key_ptr_type('')
+        for key, t in self._kpt.items():
+            if t == want:
+                a = st.arr(key, 1, I)
+                st.assume(z3.ForAll([x], Select(a, x) != r, patterns=[Select(a, x)]))
+
+    def key_ptr_type(self, key):
+        if not hasattr(self, '_kpt'):
+            self._kpt = {}
+            for tn, d in self.p.types.items():
+                if d.get('kind') == 'struct' or (d.get('kind') == 'named' and self.K(tn) == 'struct'):
+                    for f in self.p.fields(tn):
+                        if self.K(f['type']) == 'ptr' and self.K(self.p.elem(f['type'])) == 'struct':
+                            self._kpt[self.skey(tn) + '.' + f['name']] = f['type']
+            for g, gt in self.c.ghostfields.items():
+                if gt.startswith('*'):
+                    tn, gf = g.rsplit('.', 1)
+                    for full in self.p.types:
+                        if self.match_type(full, tn) and self.p.desc(full).get('kind') == 'named':
+                            self._kpt[self.ghost_key(full, gf)] = self.resolve_type(gt)
+            for g, gt in self.c.ghostmaps.items():
+                if gt.startswith('*'): self._kpt['ghost:' + g] = self.resolve_type(gt)
+        return self._kpt.get(key)
 
     def zero_mem(self, st, arr, et):
         k = self.K(et)
